@@ -190,13 +190,25 @@ type vfEnd struct {
 	// keepReadOnClose: Close only closes the write side (separate reader/writer,
 	// as with the io.Pipe pairs of the repository's own tests).
 	keepReadOnClose bool
+	// NoClose: Close is a no-op (writes keep succeeding after the owner closed the transport).
+	NoClose bool
 	closeOnce       sync.Once
 	closed          chan struct{}
 }
 
 func (e *vfEnd) Read(p []byte) (int, error)  { return e.in.read(p) }
 func (e *vfEnd) Write(p []byte) (int, error) { return e.out.write(p) }
+// ForceClose closes the end even if NoClose is set.
+func (e *vfEnd) ForceClose() {
+	e.NoClose = false
+	e.Close()
+}
+
 func (e *vfEnd) Close() error {
+	if e.NoClose {
+		// a transport whose Close does not stop its write half (allowed for an io.WriteCloser)
+		return nil
+	}
 	e.closeOnce.Do(func() {
 		e.out.closeWrite()
 		if !e.keepReadOnClose {
